@@ -2,7 +2,7 @@ SPECIFICATION Spec
 CONSTANTS
   Reqs = {1, 2, 3}
   MaxSock = 1
-  MaxEv = 0
+  MaxEv = 1
   MaxUnsol = 0
   Limit = 2
   Timed = FALSE
